@@ -112,6 +112,7 @@ func (x *Exec) stdlib(fr *Frame, ins ssa.Instruction, fn *ssa.Function, args []V
 	case "(*bytes.Reader).Len", "(*bytes.Buffer).Len", "(*strings.Reader).Len":
 		r := x.w.Fresh("extlen", SBV(64))
 		x.assume(ts.And(x.w.bvsle(ts.BV(0, 64), r), x.w.bvult(r, x.w.existingLenBound())))
+		x.availLens = append(x.availLens, r)
 		return r, true
 	case "io.ReadFull":
 		// reads into buf (contents unspecified); err == nil implies n == len(buf)
